@@ -1,22 +1,40 @@
-"""pyxel/outputs/{outputs,utils}.py + the save_to_files call in exposure.py -> Gen_C19.v
+"""pyxel/outputs/{outputs,utils}.py, observation/{observation,observation_dask}.py, exposure/exposure.py -> Gen_C19.v
 
-Extracted (fail closed on any other shape):
-  * create_output_directory: the retry loop must be `add = ""; count = 0; while True: try: <dir built from
-    an f-string ending in {add}>; <dir>.mkdir(parents=True, exist_ok=<bool literal>) except FileExistsError:
-    count += 1; add = "_" + str(count); continue else: return <dir>`  -> src_mkdir_exclusive
-  * every writer `to_<fmt>` / `write_to_<fmt>` of outputs/utils.py: does it test `<path>.exists()` before
-    writing and what does it do then (raise FileExistsError / return = skip); if it has no test, does it
-    delegate to astropy `writeto(..., overwrite=False)` (= raises) -> Raise | Skip | Overwrite
-  * save_to_files: the `match extension` dispatch (writer or NotImplementedError per format), its
-    `overwrite` default and whether run_pipeline passes `overwrite`
-  * Outputs.save_to_file: the `save_methods` table; the extension of each to_* template; whether it
-    uses the first item of each dict only or loops over `dct.items()`; whether the per-bucket result
-    replaces (`all_filenames[k] = v`) or merges (`all_filenames.setdefault(k, {}).update(v)`)
-  * Outputs.build_filenames: reads no attribute of `self` other than `save_data_to_file` (so nothing
-    remembered from an earlier call can enter), iterates it directly, two f-string templates
-    detector_{bucket}.{ext} / detector_{bucket}_{suffix}.{ext}
-  * Observation._run_single_pipeline: the `outputs=` argument of its run_pipeline call (self.outputs | None)
-  * run_pipelines_with_dask: the "outputs" entry of the kwargs given to apply_ufunc (outputs | deepcopy(outputs))
+Every function is READ SYMBOLICALLY (section "symbolic reading" below: locals substituted by what they were
+assigned, module-level constants resolved, private helpers of the package followed, every statement paired with
+its path condition as signed atoms), so a row states WHAT must hold on the way to a statement, not how the
+function is laid out.  Rows fail closed (TranslationError -> broken obligation, FALLBACK table for the search).
+
+Extracted - only what the theorems over Gen_C19.v need; everything else about these functions is established by
+the correspondence (names tried, numbers chosen, bytes written are compared with the model on executed cases):
+  * create_output_directory -> src_mkdir_exclusive: the directory is made by exactly one `<p>.mkdir(...)` whose
+    `exist_ok` resolves to a constant; that call sits in a `try` with exactly one FileExistsError handler (none
+    broader) which neither returns, breaks nor raises, inside an unbounded loop (`while True`, `for .. in
+    itertools.count()`); no path condition looks at the file system first (exists / is_dir); the one return
+    inside the loop returns the very expression mkdir was called on.  NOT read: how the candidate name / the
+    suffix / the prefix is computed, try-else vs return after the try, counters.
+  * every writer `to_<fmt>` / `write_to_<fmt>` -> Raise | Skip | Overwrite: the one statement reached under the atom
+    `<p>.exists()` (true) - alone or with `overwrite` (false) and with nothing else deciding - that raises
+    FileExistsError / leaves by a bare return, before any write call; no test: astropy `writeto(overwrite=<const>)`.
+    Spelling free: nested ifs, `and`, inverted test with the write in the other branch, De Morgan, early exit,
+    alias of the path, named boolean, private helper.
+  * save_to_files -> t_new: for every format the writer call (or raise) whose path condition holds
+    `<subject> == "<fmt>"` / `<subject> in (...)` for ONE subject - `match`, if/elif, nested; the writer receives the
+    function's `overwrite` (keyword or positional) ; `overwrite` default and the value passed in exposure.py.
+  * Outputs.save_to_file -> t_old (the one dict display format -> to_*, bound locally or at module level, and
+    indexed), t_old_ext (the `<name>_?.<ext>` template of each to_*, constants folded), t_old_all_items (iterates
+    the items of every dict of self.save_data_to_file - loop or comprehension - vs unpacks a first item),
+    t_old_merge (`<result>.setdefault(k, {}).update(v)` vs `<result>[k] = v`, through aliases)
+  * Outputs.build_filenames: reads no attribute of `self` other than `save_data_to_file` - private helper methods
+    included - no global / nonlocal / decorator / attribute store, and iterates it
+  * Observation._run_single_pipeline -> t_seq_new_stage: `outputs=` of its one run_pipeline call (self.outputs | None)
+  * run_pipelines_with_dask -> t_dask_snapshot: the "outputs" entry of the kwargs of apply_ufunc, through aliases
+    (outputs | deepcopy(outputs))
+  * apply_run_number -> src_auto: the argument of `<template>.replace('?', '{}').format(..)` as leaves of a
+    conditional value: `run_number + 1` exactly when run_number is not None, else `<largest> + step` with
+    <largest> = sorted(X)[-1] | max(X) | max(X, default=d), X = <per-name function>(n) for n in
+    glob(<template>.replace('?', '*')); first number = the int leaf chosen by a test of X, or d + step; the
+    per-name function (nested, module-level or imported) converts the `\\d+$` match with int().
 """
 from __future__ import annotations
 
@@ -155,6 +173,8 @@ class Ev:
 
     def __init__(self, kind, node, conds, ctx, orig=None):
         self.kind, self.node, self.conds, self.ctx, self.orig = kind, node, list(conds), tuple(ctx), orig
+        if isinstance(node, ast.AST):
+            ast.fix_missing_locations(node)
 
     def in_ctx(self, what: str):
         return [c for c in self.ctx if c[0] == what]
@@ -317,6 +337,23 @@ class Sym:
             if v is not None:
                 return v
         return s
+
+    def test(self, e, env, conds, ctx):
+        """A condition; a private predicate helper called in it (`if _taken(p):`, `if not _free(p):`) is read in place."""
+        s = self.subst(e, env)
+        outer = self
+
+        class T(ast.NodeTransformer):
+            def visit_Call(self, c):
+                self.generic_visit(c)
+                v = outer.inline(c, conds, ctx, want_value=True)
+                return c if v is None else v
+
+            def visit_Lambda(self, n):
+                return n
+
+            visit_ListComp = visit_SetComp = visit_DictComp = visit_GeneratorExp = visit_Lambda
+        return T().visit(s) if any(isinstance(n, ast.Call) for n in ast.walk(s)) else s
 
     # ---- helpers
     def callee(self, call: ast.Call):
@@ -496,7 +533,7 @@ class Sym:
             self.emit("break", st, conds, ctx, st)
             return "break"
         if isinstance(st, ast.If):
-            return self._if(self.subst(st.test, env), st.body, st.orelse, env, conds, ctx)
+            return self._if(self.test(st.test, env, conds, ctx), st.body, st.orelse, env, conds, ctx)
         if isinstance(st, ast.Match):
             subject = self.subst(st.subject, env)
             chain: list = []                       # innermost first
@@ -1300,6 +1337,18 @@ def render(excl: bool, writers, new_tab, old_tab, exts, flags, auto=(1, 1)) -> s
 
 
 def translate(repo: Path) -> str:
+    try:
+        return _translate(repo)
+    except TranslationError:
+        raise
+    except RecursionError as ex:
+        raise TranslationError(f"source too deep to read: {ex}") from ex
+    except (AttributeError, KeyError, IndexError, TypeError, ValueError, AssertionError) as ex:
+        # a shape the reader itself does not cope with: fail closed, never crash the check
+        raise TranslationError(f"unreadable source shape ({type(ex).__name__}: {ex})") from ex
+
+
+def _translate(repo: Path) -> str:
     Mod._cache.clear()
     excl = mkdir_loop(repo)
     ow = new_overwrite(repo)
